@@ -6,11 +6,15 @@ T3(nl) == [cat |-> <<"A","N","T","H","S","R","C","E">>, id |-> 1, unit |-> <<"k"
 \* a diagnostic of tracer 1 in a category whose offset + id has no line in the
 \* tracer table (adjoint-like): the name is the bare tracer's, the data are not scaled
 T4(nl) == [cat |-> <<"I","J","-","A","D","J","-","$">>, id |-> 1, unit |-> <<"u","n","i","t","l","e","s","s">>, nl |-> nl, name |-> <<"N","O","x">>, scale2 |-> 0, off |-> 1000, intab |-> FALSE]
+\* tracer lists that are also generated as cumulative averages
+CumLists == { <<T1(3)>>, <<T1(2), T2(1)>> }
 TracerLists == { <<T1(3)>>, <<T1(2), T2(1)>>, <<T2(1), T1(3)>>, <<T1(3), T2(2), T3(1)>>, <<T3(1), T1(1)>>, <<T1(1), T3(2), T2(3)>>,
                  <<T1(2), T4(2)>>, <<T4(1), T2(1), T1(3)>> }
 \* window origins <<i0 = j0, l0>>: global, nested grid, level-range output (only l0 > 1)
-Configs == { [tr |-> tl, ni |-> g[1], nj |-> g[2], i0 |-> o[1], j0 |-> o[1], l0 |-> o[2], nt |-> nt, tau |-> 140256] :
-              tl \in TracerLists, g \in { <<1, 1>>, <<2, 1>>, <<2, 3>>, <<3, 2>> }, o \in { <<1, 1>>, <<3, 1>>, <<1, 4>> }, nt \in 1..3 }
+ConfigsAll == { [tr |-> tl, ni |-> g[1], nj |-> g[2], i0 |-> o[1], j0 |-> o[1], l0 |-> o[2], nt |-> nt, tau |-> 140256, cum |-> cm] :
+              tl \in TracerLists, g \in { <<1, 1>>, <<2, 1>>, <<2, 3>>, <<3, 2>> }, o \in { <<1, 1>>, <<3, 1>>, <<1, 4>> }, nt \in 1..3,
+              cm \in BOOLEAN }
+Configs == {x \in ConfigsAll : x.cum => x.tr \in CumLists}
 \* c: configuration; n: cut offset (walked only when PNC_BPCH_CUTS = 1); z: cached sizes
 VARIABLES c, n, z
 vars == <<c, n, z>>
